@@ -206,8 +206,47 @@ def sequentialise(module, class_name, func_name):
     g["_SEQZ_B"] = B
     g["_seqz_begin"] = _seqz_begin
     g["_seqz_end"] = _seqz_end
+    original = g.get(class_name)
     exec(compile(mod, "<seqz:%s.%s>" % (class_name, func_name), "exec"), g)
-    return g[class_name].__dict__[func_name], src
+    fn = g[class_name].__dict__[func_name]
+    if original is not None:
+        g[class_name] = original       # two-argument super(Class, x) inside the body must see the real class
+    return fn, src
+
+
+def sequentialise_obj(module, cls_obj, func_name):
+    """Like sequentialise() for a class that is not reachable by name at module level (defined inside a
+    function): located through inspect on the class object."""
+    import inspect
+    src_lines, start = inspect.getsourcelines(cls_obj)
+    src = textwrap.dedent("".join(src_lines))
+    tree = ast.parse(src)
+    cdef = tree.body[0]
+    target = None
+    for sub in cdef.body:
+        if isinstance(sub, ast.FunctionDef) and sub.name == func_name:
+            target = sub
+    if target is None:
+        raise SeqError("%s.%s not found" % (cls_obj.__name__, func_name))
+    target.decorator_list = []
+    fn = _Rewriter().visit(target)
+    fn.body.append(ast.If(ast.Constant(False), [ast.Expr(ast.Yield(ast.Constant(None)))], []))
+    cls = ast.ClassDef(name=cls_obj.__name__, bases=[], keywords=[], body=[fn], decorator_list=[])
+    mod = ast.Module([cls], [])
+    ast.fix_missing_locations(mod)
+    text = ast.unparse(mod)
+    g = dict(module.__dict__)
+    orig = cls_obj.__dict__[func_name]
+    orig = getattr(orig, "__func__", orig)
+    if orig.__closure__:          # free variables of the enclosing function become globals of the rewritten copy
+        for nm, cell in zip(orig.__code__.co_freevars, orig.__closure__):
+            try:
+                g[nm] = cell.cell_contents
+            except ValueError:
+                pass
+    g.update(_SEQZ_P=P, _SEQZ_B=B, _seqz_begin=_seqz_begin, _seqz_end=_seqz_end)
+    exec(compile(mod, "<seqz:%s.%s>" % (cls_obj.__name__, func_name), "exec"), g)
+    return g[cls_obj.__name__].__dict__[func_name], text
 
 
 class Thread(object):
